@@ -43,3 +43,10 @@ PROPS["C12"] = {"pkgs": [(".", "TestVerif_C12")],
                                  "through Client.HandleInbound; time.AfterFunc under testing/synctest",
                                  "the serialisation of timer callbacks and responses by Client.mutexTrMap is modelled as atomic events (C18 covers locks)"],
                 "assumptions": ["transaction ids are fresh (96 random bits in the implementation)"]}
+
+PROPS["C09"] = {"pkgs": [("./internal/server", "TestVerif_C09"), (".", "TestVerif_C09"), ("./internal/proto", "TestVerif_C09")],
+                "trusted_base": ["pion/stun Message.Decode is modelled byte by byte (Model/StunMsg.v) and compared with the library on every case",
+                                 "code below the dispatch that is not modelled line by line (attribute getters inside handlers, logging, runtime) "
+                                 "is exercised by the correspondence runs only",
+                                 "a real-time watchdog turns a busy loop into a reported failure"],
+                "assumptions": []}
